@@ -72,6 +72,18 @@ void vrt_promo_insert(struct config *cfg, uintptr_t pc);
 struct seen_slot { unsigned long key; unsigned long meta; };
 extern struct seen_slot *vrt_seen_tab;
 
+/* development aid (bin/coverage, option --covmap): one byte per text byte, shared by all executions of a job;
+ * set for the return address of every instrumented access / function entry that was executed */
+extern unsigned char *vrt_covmap;
+extern char __executable_start[], etext[];
+static inline void vrt_cov_hit(const void *pc)
+{
+	uintptr_t o = (uintptr_t)pc - (uintptr_t)__executable_start;
+
+	if (vrt_covmap && o < (uintptr_t)(etext - __executable_start) && !vrt_covmap[o])
+		vrt_covmap[o] = 1;
+}
+
 static inline unsigned long vrt_mix(unsigned long h, unsigned long v)
 {
 	h ^= v + 0x9e3779b97f4a7c15UL + (h << 6) + (h >> 2);
